@@ -71,6 +71,9 @@ pub struct C18Real;
 
 impl Prop for C18Real {
     type Case = Case;
+    fn max_shrink_iters(&self) -> u32 {
+        80
+    }
     fn name(&self) -> &'static str {
         "real-transports"
     }
